@@ -86,7 +86,11 @@ impl log::Log for FlexiLogger {
         if special_target_is_used {
             let mut use_default = false;
             let targets: Vec<&str> = target[1..(target.len() - 1)].split(',').collect();
-            for t in targets {
+            for (idx, t) in targets.iter().copied().enumerate() {
+                if targets[..idx].contains(&t) {
+                    // a name that is repeated in the list is served only once
+                    continue;
+                }
                 if t == "_Default" {
                     use_default = true;
                 } else {
